@@ -1868,13 +1868,17 @@ int hostlist_delete_host(hostlist_t hl, const char *hostname)
 static char *
 _hostrange_string(hostrange_t hr, int depth)
 {
-    char buf[MAXHOSTNAMELEN + 16];
-    int  len = snprintf(buf, MAXHOSTNAMELEN + 15, "%s", hr->prefix);
+    /* room for the prefix and a number of `width' (at least 20) digits */
+    size_t len = strlen(hr->prefix) + (hr->width > 20 ? hr->width : 20) + 1;
+    char *buf = malloc(len);
 
-    if (!hr->singlehost)
-        snprintf(buf+len, MAXHOSTNAMELEN+15 - len, "%0*lu",
-                 hr->width, hr->lo + depth);
-    return strdup(buf);
+    if (buf == NULL)
+        return NULL;
+    if (hr->singlehost)
+        strcpy(buf, hr->prefix);
+    else
+        snprintf(buf, len, "%s%0*lu", hr->prefix, hr->width, hr->lo + depth);
+    return buf;
 }
 
 char * hostlist_nth(hostlist_t hl, int n)
